@@ -103,7 +103,7 @@ func runChild(bin string, args []string, env []string, logPath string, watchdog 
 	}
 	if ee, ok := err.(*exec.ExitError); ok {
 		code := ee.ExitCode()
-		if code == 124 || code == 137 {
+		if code == 124 || code == 137 || code == 4 {
 			return code, true
 		}
 		if code == 2 {
@@ -115,6 +115,22 @@ func runChild(bin string, args []string, env []string, logPath string, watchdog 
 		return code, false
 	}
 	return 127, false
+}
+
+func caseTimeout(p *Prop, tier string, mult int) time.Duration {
+	sec := 20
+	if tier == "thorough" {
+		sec = 120
+	}
+	if p.CaseTimeoutSec != nil {
+		if v := p.CaseTimeoutSec(tier); v > 0 {
+			sec = v
+		}
+	}
+	if v, err := strconv.Atoi(os.Getenv("VMON_CASE_TIMEOUT")); err == nil && v > 0 {
+		sec = v
+	}
+	return time.Duration(sec*mult) * time.Second
 }
 
 func childEnv(p *Prop, shard int, tier string) []string {
@@ -162,10 +178,11 @@ func RunParent(id, tier string) int {
 	dir := filepath.Join(OutRoot(), ".run", id)
 	os.RemoveAll(dir)
 	os.MkdirAll(filepath.Join(dir, "replay"), 0o755)
-	base := 1
+	base0 := 1
 	if p.Shards != nil {
-		base = p.Shards(tier)
+		base0 = p.Shards(tier)
 	}
+	base := base0
 	n := base
 	if p.Probes != nil {
 		n += p.Probes(tier)
@@ -210,6 +227,8 @@ func RunParent(id, tier string) int {
 	var inconclusive []string
 	exhaustive := map[string]int{}
 	lostShards := 0
+	seqReruns := 0
+	var inconclusiveAfterSeq []string
 	for k := 0; k < n; k++ {
 		r := results[k]
 		base := filepath.Join(dir, fmt.Sprintf("shard-%d", k))
@@ -248,11 +267,39 @@ func RunParent(id, tier string) int {
 			exit2, to2 := runChild(bin, []string{"replaycase", id, tier, strconv.FormatInt(seed, 10), dir, base + ".cur", strconv.Itoa(1000 + k)}, env, rlog, wd)
 			switch {
 			case exit2 == 0:
-				// the single case is fine alone: read its violations if any; the shard itself is lost
+				// the single case is fine alone: the failure depends on what ran before it. Re-run the whole
+				// (deterministic) shard once; failing again makes it a history-dependent violation.
 				vs := readViol(filepath.Join(dir, fmt.Sprintf("shard-%d.viol.json", 1000+k)))
 				viols = append(viols, vs...)
-				inconclusive = append(inconclusive, fmt.Sprintf("shard %d: %s (exit %d) not reproduced by its last input: %s", k, what, r.exit, tail(r.log, 12)))
-				lostShards++
+				firstTail := tail(r.log, 12)
+				seqLog := base + ".sequence.log"
+				os.Remove(base + ".cur")
+				if seqReruns >= 1 {
+					// one history-dependent failure has been confirmed already; do not pay for the others
+					inconclusiveAfterSeq = append(inconclusiveAfterSeq, fmt.Sprintf("shard %d: %s (exit %d) not reproduced by its last input (sequence not re-run): %s", k, what, r.exit, firstTail))
+					lostShards++
+					continue
+				}
+				seqReruns++
+				exit3, to3 := runChild(bin, []string{"worker", id, tier, strconv.FormatInt(seed, 10), strconv.Itoa(k), strconv.Itoa(base0), dir}, env, seqLog, watchdog)
+				if exit3 == 0 {
+					seqReruns--
+					inconclusive = append(inconclusive, fmt.Sprintf("shard %d: %s (exit %d) not reproduced, neither alone nor by re-running the shard: %s", k, what, r.exit, firstTail))
+					lostShards++
+				} else if p.CrashIsViolation {
+					kind := "crash"
+					if to3 {
+						kind = "hang"
+					}
+					seqCase, _ := json.Marshal(map[string]interface{}{"shard": k, "nshards": base0, "tier": tier, "last_input": json.RawMessage(cur)})
+					viols = append(viols, Violation{Property: id, Monitor: "__shard__", Sig: id + "/" + kind + "-in-sequence:" + crashSig(seqLog), Seed: seed, Shard: k, Case: seqCase,
+						Detail: fmt.Sprintf("%s only after earlier evaluations in the same process (the last input alone is fine); reproduced by re-running shard %d: %s", kind, k, tail(seqLog, 14))})
+					lostShards++
+				} else {
+					inconclusive = append(inconclusive, fmt.Sprintf("shard %d: reproducible %s in sequence: %s", k, kind3(to3), tail(seqLog, 12)))
+					lostShards++
+				}
+				continue
 			case to2 && r.timedOut:
 				if p.CrashIsViolation {
 					viols = append(viols, Violation{Property: id, Monitor: bc.Monitor, Sig: id + "/hang@" + bc.Monitor, Seed: seed, Shard: k, Case: bc.Case,
@@ -305,6 +352,16 @@ func RunParent(id, tier string) int {
 				distinct[u] = struct{}{}
 			}
 		}
+	}
+	if seqViol := func() bool {
+		for _, v := range viols {
+			if v.Monitor == "__shard__" {
+				return true
+			}
+		}
+		return false
+	}(); !seqViol {
+		inconclusive = append(inconclusive, inconclusiveAfterSeq...)
 	}
 	// exhaustive parts count only when every shard completed them
 	var exParts []string
@@ -465,6 +522,13 @@ func crashSig(logPath string) string {
 	return fatal + "@" + frame
 }
 
+func kind3(to bool) string {
+	if to {
+		return "hang"
+	}
+	return "crash"
+}
+
 func firstLine(s string) string {
 	if i := strings.IndexByte(s, '\n'); i >= 0 {
 		s = s[:i]
@@ -513,6 +577,7 @@ func RunWorker(args []string) int {
 		return 3
 	}
 	w := NewW(id, tier, seed, shard, n, dir)
+	w.StartWatchdog(caseTimeout(p, tier, 1))
 	p.Run(w)
 	if err := w.Flush(); err != nil {
 		fmt.Fprintln(os.Stderr, "flush:", err)
@@ -547,6 +612,7 @@ func RunReplayCase(args []string) int {
 	}
 	w := NewW(id, tier, seed, shard, 1, dir)
 	w.Replay = true
+	w.StartWatchdog(caseTimeout(p, tier, 10))
 	if err := p.ReplayCase(w, bc.Monitor, bc.Case); err != nil {
 		fmt.Fprintln(os.Stderr, "replay:", err)
 		return 3
@@ -579,6 +645,23 @@ func RunReplay(path string) int {
 	os.MkdirAll(dir, 0o755)
 	tier := "quick"
 	env := childEnv(p, v.Shard, tier)
+	if v.Monitor == "__shard__" {
+		var sc struct {
+			Shard, NShards int
+			Tier           string
+		}
+		json.Unmarshal(v.Case, &sc)
+		if sc.Tier != "" {
+			tier = sc.Tier
+		}
+		exit, to := runChild(workerBinary(p), []string{"worker", v.Property, tier, strconv.FormatInt(v.Seed, 10), strconv.Itoa(sc.Shard), strconv.Itoa(sc.NShards), dir}, env, filepath.Join(dir, "replay.log"), 7200)
+		if exit != 0 {
+			fmt.Printf("VIOLATION property=%s replay=%s\n  %s when shard %d is re-run: %s\n", v.Property, path, kind3(to), sc.Shard, tail(filepath.Join(dir, "replay.log"), 14))
+			return 1
+		}
+		fmt.Printf("replay %s: re-running the shard no longer fails\n", path)
+		return 0
+	}
 	exit, to := runChild(workerBinary(p), []string{"replaycase", v.Property, tier, strconv.FormatInt(v.Seed, 10), dir, path, "0"}, env, filepath.Join(dir, "replay.log"), 3600)
 	if exit != 0 {
 		if exit == 3 {
